@@ -199,7 +199,8 @@ GetOrCreateF(d, lastc, clk, metric, key) ==
                        THEN (IF skip THEN MaxBudget
                              ELSE CalcBudget(d.flood[metric].free, 1, d.flood[metric].last, pred))
                        ELSE MaxBudget - 1
-             nid    == Max2(d.mseq, MaxMapId(d)) + 1               \* AUTOINCREMENT
+             nid    == IF \A p \in d.maps : p.id <= d.mseq THEN d.mseq + 1     \* AUTOINCREMENT:
+                       ELSE MaxMapId(d) + 1                                   \* max(seq, largest rowid) + 1
          IN IF exists /\ ~skip /\ cnt < 0 THEN [db |-> d, rep |-> GocReply("flood", 0), ev |-> NoEv]
             ELSE [db |-> [d EXCEPT !.flood = Upd(@, metric, [last |-> pred, free |-> cnt]),
                                    !.maps = @ \cup {[k |-> key, id |-> nid]}, !.mseq = nid],
